@@ -51,11 +51,14 @@ pub struct Scenario {
     pub disk: SimDisk,
     pub fs: FsPlan,
     pub sim: SimConfig,
+    /// stack size of the world thread in MiB (planning recursion runs on it);
+    /// 256 unless a check wants the 8 MiB of an ordinary main thread
+    pub stack_mb: usize,
 }
 
 impl Scenario {
     pub fn single(script: Vec<Stmt>) -> Scenario {
-        Scenario { entropy: 1, table_dims: None, sessions: vec![script], disk: SimDisk::default(), fs: FsPlan::default(), sim: SimConfig::default() }
+        Scenario { entropy: 1, table_dims: None, sessions: vec![script], disk: SimDisk::default(), fs: FsPlan::default(), sim: SimConfig::default(), stack_mb: 256 }
     }
 }
 
@@ -204,7 +207,7 @@ pub fn run_scenario(sc: &Scenario, chooser: Chooser, announce: Option<&(dyn Fn(u
     // simulated clock start from a state that is a function of the scenario.
     std::thread::scope(|s| {
         std::thread::Builder::new()
-            .stack_size(256 << 20)
+            .stack_size(sc.stack_mb.max(1) << 20)
             .spawn_scoped(s, || {
                 crate::entropy::set_entropy(sc.entropy);
                 glaredb_core::verif::set_datatable_dims(sc.table_dims);
